@@ -430,6 +430,15 @@ def rule_keyblob_layout(ctx) -> None:
     chk.decide(not probs, "C13.wire", ip.qual, "tag, version, attributes, page offset, key1, key2, start, end, 0, then the CRC-32/MPEG-2 (LE) of all of that (2 models)", "; ".join(probs[:1])[:400], "", A.loc(IEE, ip.node))
     for cn in ("BeeFacRegion", "BeeProtectRegionBlock", "BeeKIB"):
         wire.check_pair(ctx, "C13.wire", BEE, cn, "export", "parse")
+    # the same three BEE blocks interpreted on model objects (E19): parse(export(x)) has the fields of x and exports to the same bytes
+    from ..engines import roundtrip
+    mode = ctx.enum_model(ctx.cls(BEE, "BeeProtectRegionBlockAesMode"))
+    roundtrip.check_classes(ctx, "C13.bee-roundtrip", BEE, [
+        ("BeeFacRegion", [{"start": 0x1000, "length": 0x2000, "protected_level": 2}, {"start": 0x400, "length": 0x400, "protected_level": 0}]),
+        ("BeeProtectRegionBlock", [{"encr_mode": mode.CTR, "lock_options": 1, "counter": bytes(range(12)) + bytes(4),
+                                    "__setup1": "obj.add_fac(BeeFacRegion(0x1000, 0x2000, 1))", "__setup2": "obj.add_fac(BeeFacRegion(0x8000, 0x400, 3))"}]),
+        ("BeeKIB", [{"kib_key": bytes(range(16)), "kib_iv": bytes(range(16, 32))}]),
+    ], floor=3)
 
 
 def rule_scramble(ctx) -> None:
